@@ -6,3 +6,8 @@ python3-vt -c "import z3, sys; print('z3', z3.get_version_string())"
 test -x /usr/bin/cvc5 && echo "cvc5 present"
 test -x /venv/bin/python && echo "/venv python present"
 mkdir -p evidence replay
+# the sidecar models of the Rust extension are sampled against the extension itself (assumptions A3/A4/A5 stay assumptions)
+PYTHONPATH="$(pwd)" /venv/bin/python -m pyvc.selftest_models
+# the engine's symbolic models of Python primitives are compared with CPython on random concrete inputs (contracts/SELFTEST.py)
+out=$(./check SELFTEST --no-evidence 2>&1) || { echo "$out" | tail -20; echo 'engine self-test failed'; exit 1; }
+echo "$out" | tail -1
